@@ -78,7 +78,8 @@ prop("C07", "proof", "composition of the parser-side well-formedness and decoder
      "known finding: errMatchLen for g > BufferSize-WindowSize", GEN_RULE, "§8 C07")
 prop("C08", "proof", "Wrap as a derived machine of the parser model; ReadFrom chunking independence and no-panic proved on PBuf; reader scripts with short reads, EOF with data and errors",
      "Lean 4 proof on the buffer model + differential correspondence with scripted readers",
-     [S("p-wrap", 300, 5000, ["w.eof", "w.readererr", "w.shrunk"]), S("p-bigbuf", 8, 200, ["p.bigbuf", "p.readfrom.full"])],
+     [S("p-wrap", 300, 5000, ["w.eof", "w.readererr", "w.shrunk"]), S("p-bigbuf", 8, 200, ["p.bigbuf", "p.readfrom.full"]),
+      S("p-large", 2, 60, ["p.large.wrap"], hang="120s")],
      "assumes readers never return (0, nil) forever", GEN_RULE, "§8 C08")
 prop("C09", "proof", "suffix.Sort is certified per input against the Lean specification saSpec (sorted permutation, proved unique); LCP (Kasai) and InvertSA are modelled exactly and proved correct in Lean",
      "Lean 4 proof (Kasai, InvertSA) + per-input certification of Sort against a verified specification",
